@@ -482,6 +482,11 @@ func judge(r *ev.Run, w *world, st *stmt, rp reply, events []cbEvent, orph [2]in
 				"column=" + c.col.group, "placement=" + c.placement, "config=" + w.class, "wire-type=" + c.wire.name} {
 				r.Count("mysql_poison_values_alarmed_before_delivery:"+k, 1)
 			}
+			switch n := len(c.data); n {
+			case 250, 251, 252, 65535, 65536, 65537:
+				r.Count(fmt.Sprintf("mysql_poison_values_alarmed_before_delivery:field-length-exactly=%d", n), 1)
+				r.Count(fmt.Sprintf("mysql_poison_values_alarmed_before_delivery:field-length-exactly=%d:%s", n, st.proto()), 1)
+			}
 			r.SetAdd("mysql_poison_column_classes_alarmed", c.col.class)
 			r.SetAdd("mysql_poison_field_lengths_alarmed", fmt.Sprint(len(c.data)))
 			if c.nextTo != "" {
@@ -534,45 +539,44 @@ func guards(r *ev.Run) {
 	lostClasses, withheldClasses = nil, nil
 	req := func(name string, min int64) { r.RequireAtLeast(name, min) }
 	p := "mysql_poison_values_alarmed_before_delivery"
-	req(p, 300)
-	for _, k := range []string{"protocol=text", "protocol=binary", "eof=deprecated", "eof=classic", "kind=as", "kind=ab", "key=current", "key=rotated", "row=first", "row=middle", "row=last", "col=first", "col=middle", "col=last"} {
-		req(p+":"+k, 40)
+	req(p, 600)
+	for k, min := range map[string]int64{
+		"protocol=text": 200, "protocol=binary": 200, "eof=deprecated": 200, "eof=classic": 200, "kind=as": 200, "kind=ab": 200, "key=current": 200, "key=rotated": 150,
+		"row=first": 60, "row=middle": 60, "row=last": 60, "col=first": 60, "col=middle": 60, "col=last": 60,
+		"reader=owner": 150, "reader=other-keys": 150, "reader=no-keys": 150, "config=mixed": 300, "config=default-only": 150,
+		"field-length=lt251": 80, "field-length=251..65535": 300, "field-length=ge65536": 60,
+		"column=unconfigured": 150, "column=encrypted": 100, "column=type-aware": 100, "column=searchable": 30, "column=masked": 30, "column=tokenized": 30,
+		"placement=alone": 100, "placement=random-around": 80, "placement=padded-to-boundary": 40, "placement=two-records": 30,
+		"next-to=null": 20, "next-to=empty": 20,
+		"all-selected-columns-unconfigured=same-table": 40, "all-selected-columns-unconfigured=unknown-table": 15,
+	} {
+		req(p+":"+k, min)
 	}
-	for _, k := range []string{"reader=owner", "reader=other-keys", "reader=no-keys", "config=mixed", "config=default-only"} {
-		req(p+":"+k, 30)
-	}
-	for _, k := range []string{"field-length=lt251", "field-length=251..65535", "field-length=ge65536"} {
-		req(p+":"+k, 12)
-	}
-	for _, k := range []string{"column=unconfigured", "column=encrypted", "column=type-aware", "column=searchable", "column=masked", "column=tokenized"} {
-		req(p+":"+k, 12)
-	}
-	for _, k := range []string{"placement=alone", "placement=random-around", "placement=padded-to-boundary"} {
-		req(p+":"+k, 12)
+	for _, k := range []string{"text:mixed", "binary:mixed", "text:default-only", "binary:default-only"} {
+		req(p+":all-selected-columns-unconfigured:"+k, 8)
 	}
 	for _, k := range []string{"empty", "null", "len-251..65535", "len-ge65536"} {
 		req(p+":rows-start-with="+k, 10)
 		req(p+":rows-start-with="+k+":text:deprecated", 2)
 		req(p+":rows-start-with="+k+":text:classic", 2)
 	}
-	req(p+":all-selected-columns-unconfigured=same-table", 40)
-	req(p+":all-selected-columns-unconfigured=unknown-table", 15)
-	for _, k := range []string{"text:mixed", "binary:mixed", "text:default-only", "binary:default-only"} {
-		req(p+":all-selected-columns-unconfigured:"+k, 8)
+	for _, n := range []int{250, 251, 252, 65535, 65536, 65537} {
+		req(fmt.Sprintf("%s:field-length-exactly=%d", p, n), 4)
+		req(fmt.Sprintf("%s:field-length-exactly=%d:text", p, n), 1)
+		req(fmt.Sprintf("%s:field-length-exactly=%d:binary", p, n), 1)
 	}
-	req(p+":next-to=null", 10)
-	req(p+":next-to=empty", 10)
-	req("mysql_result_sets_with_several_poison_values_alarmed", 30)
-	req("mysql_clean_result_sets_silent", 150)
-	req("mysql_clean_result_sets_silent_and_delivered", 100)
-	req("mysql_clean_result_sets_silent:text", 50)
-	req("mysql_clean_result_sets_silent:binary", 50)
+	req("mysql_result_sets_with_several_poison_values_alarmed", 80)
+	req("mysql_clean_result_sets_silent", 300)
+	req("mysql_clean_result_sets_silent_and_delivered", 300)
+	req("mysql_clean_result_sets_silent:text", 120)
+	req("mysql_clean_result_sets_silent:binary", 120)
 	for _, g := range []string{"random", "lookalike", "damaged-poison", "client-envelope", "foreign-poison", "mixed"} {
-		req("mysql_clean_result_sets_silent:data="+g, 8)
+		req("mysql_clean_result_sets_silent:data="+g, 30)
 	}
-	req("mysql_clean_result_sets_silent:in-clean-world", 30)
-	req("mysql_clean_worlds_silent", 1)
-	r.RequireSetAtLeast("mysql_poison_column_classes_alarmed", 15)
+	req("mysql_clean_result_sets_silent:in-clean-world", 80)
+	req("mysql_clean_worlds_silent", 2)
+	req("mysql_callback_runs_observed_with_socket_queue", 1000)
+	r.RequireSetAtLeast("mysql_poison_column_classes_alarmed", 25)
 }
 
 func clip(b []byte, n int) []byte {
